@@ -26,6 +26,11 @@ fn newline_spec(c: u32) -> bool {
     c == 0x0A || c == 0x0D || c == 0x0B || c == 0x0C || c == 0x85 || c == 0x2028 || c == 0x2029
 }
 
+/// Unicode White_Space (what `char::is_whitespace` documents), written out
+fn white_space_spec(c: u32) -> bool {
+    (c >= 0x09 && c <= 0x0D) || c == 0x20 || c == 0x85 || c == 0xA0 || c == 0x1680 || (c >= 0x2000 && c <= 0x200A) || c == 0x2028 || c == 0x2029 || c == 0x202F || c == 0x205F || c == 0x3000
+}
+
 /// Character classes of `char` against their definitions, and agreement of the `u8` classes with the
 /// `char` classes on ASCII.
 pub fn h_char_classes() {
@@ -34,6 +39,8 @@ pub fn h_char_classes() {
     ch::assume(radix >= 2 && radix <= 36);
     vassert!(Char::is_inline_whitespace(&c) == (c == ' ' || c == '\t'), "C14/char.inline-whitespace-is-space-or-tab");
     vassert!(Char::is_newline(&c) == newline_spec(c as u32), "C14/char.newline-is-one-of-the-documented-terminators");
+    vassert!(Char::is_whitespace(&c) == white_space_spec(c as u32), "C14/char.whitespace-is-the-unicode-white-space-class");
+    vcover!(c as u32 == 0x2003, "char: em space");
     vassert!(Char::is_digit(&c, radix) == digit_spec(c as u32, radix), "C14/char.digit-of-radix-r");
     vassert!(Char::to_ascii(&c) == if (c as u32) < 128 { Some(c as u8) } else { None }, "C14/char.to_ascii");
     vassert!(<char as Char>::digit_zero() == '0', "C14/char.digit-zero");
